@@ -727,6 +727,20 @@ def workload(ctx):
         for k, v in tr.handlers().items():
             ctx.count("handler:" + k, v)
     if HAVE_MATCHPY:
+        # equal numbers of different kinds in ONE expression (2 and 2.0, 1 and True): each comes
+        # back as what it was
+        import numpy as np
+        x_, y_, f_ = p.Variable("x"), p.Variable("y"), p.Variable("f")
+        for i, (a, b) in enumerate([(2, 2.0), (2.0, 2), (1, True), (True, 1), (1, 1.0), (0, False), (0.0, 0),
+                                    (3, np.int64(3)), (np.float64(2.0), 2.0), (2, 2 + 0j), (-1, -1.0)]):
+            for j, e in enumerate([p.Sum((p.Product((x_, a)), p.Power(y_, b))), p.Call(f_, (a, b)),
+                                   p.Quotient(a, p.Sum((x_, b))), p.Sum((p.Power(x_, a), p.Power(y_, a), p.Power(x_, b))),
+                                   p.Subscript(x_, (a, b)), p.If(p.Comparison(x_, "<", a), b, a),
+                                   p.Product((p.Sum((x_, b)), p.Sum((y_, a))))]):
+                if ctx.mine("twins-roundtrip"):
+                    ctx.case(("rt-twins", i, j), True, n=0)
+                    ctx.count("number_twin_roundtrips")
+                    ctx.run("C16.roundtrip", (e,))
         for i in range(ctx.per_shard(ctx.pick(1500, 30000))):
             e = gen(rng, rng.randint(1, 3), TV + [p.Variable("a")], MKINDS)
             if not isinstance(e, p.Expression):
@@ -761,6 +775,7 @@ def workload(ctx):
                 continue
             ctx.run("C16.replace", (e, pat))
         ctx.floor("roundtrips", 1000)
+        ctx.floor("number_twin_roundtrips", 70)
         ctx.floor("matches_reported", 1000)
         ctx.floor("replacements_observed", 300)
     else:
